@@ -40,7 +40,7 @@ def mc_module(fam):
 
 def cfg_text(algo, budget, steps, mode, view=True):
     t = ('SPECIFICATION Spec\nCONSTANTS\n Peers <- MCPeers\n Cat <- MCCat\n Attr <- MCAttr\n Algo = "%s"\n Budget = %d\n Enabled <- MCEnabled\n'
-         ' MaxSteps = %d\n EmitMode = "%s"\nINVARIANTS NoSilentLoss CopiesInRange Conservation Emit\n' % (algo, budget, steps, mode))
+         ' MaxSteps = %d\n EmitMode = "%s"\nINVARIANTS NoSilentLoss CopiesInRange Conservation DistinctIds Emit\n' % (algo, budget, steps, mode))
     if view:
         t += "VIEW SView\n"
     return t
@@ -103,6 +103,10 @@ def run_families(chk, prop, plans, tier, max_hist=None):
                      timeout=3000, crash_key=prop + ":core/process-crash")
     if st.get("histories") != total:
         raise InfraError("replay incomplete: %s" % st)
+    if st.get("histories_timing", 0) > 0.2 * total:
+        raise InfraError("too many behaviours abandoned for timing (machine overloaded): %s" % st)
+    if st.get("histories_infra", 0) > 0:
+        raise InfraError("replay had infrastructure failures: %s" % st)
     return total, st
 
 
